@@ -88,3 +88,96 @@ pub mod inspect {
         )
     }
 }
+
+/// When the interpreter's allocator collects.
+#[derive(Debug, Clone, Default)]
+pub enum GcSchedule {
+    /// the crate's own trigger (byte counter above the threshold)
+    #[default]
+    Natural,
+    /// never (the natural trigger is disabled by raising the threshold)
+    Never,
+    /// at every allocation
+    Every,
+    /// exactly at these allocation indices (0-based, counted since the hooks were reset)
+    At(std::collections::BTreeSet<u64>),
+}
+
+#[derive(Debug, Clone, Copy, PartialEq, Eq)]
+pub enum AllocEvent {
+    Alloc { ptr: usize, size: usize, charged: usize },
+    Dealloc { ptr: usize, size: usize, charged: usize },
+    Fail { size: usize, charged: usize },
+}
+
+/// Hooks living inside `CaoLangAllocator`.
+#[derive(Debug, Default)]
+pub struct AllocHooks {
+    pub schedule: GcSchedule,
+    /// number of allocation requests seen (successful or not)
+    pub alloc_index: u64,
+    /// number of collections started from the allocator
+    pub collections: u64,
+    pub record_events: bool,
+    pub events: Vec<AllocEvent>,
+}
+
+impl AllocHooks {
+    /// called once per admitted allocation request; true = force a collection now
+    pub(crate) fn decide(&mut self, next_gc: &std::sync::atomic::AtomicUsize) -> bool {
+        let idx = self.alloc_index;
+        self.alloc_index += 1;
+        match &self.schedule {
+            GcSchedule::Natural => false,
+            GcSchedule::Never => {
+                next_gc.store(usize::MAX, std::sync::atomic::Ordering::Relaxed);
+                false
+            }
+            GcSchedule::Every => {
+                next_gc.store(usize::MAX, std::sync::atomic::Ordering::Relaxed);
+                true
+            }
+            GcSchedule::At(set) => {
+                next_gc.store(usize::MAX, std::sync::atomic::Ordering::Relaxed);
+                set.contains(&idx)
+            }
+        }
+    }
+    pub(crate) fn on_alloc(&mut self, ptr: usize, size: usize, charged: usize) {
+        if self.record_events {
+            self.events.push(AllocEvent::Alloc { ptr, size, charged });
+        }
+    }
+    pub(crate) fn on_dealloc(&mut self, ptr: usize, size: usize, charged: usize) {
+        if self.record_events {
+            self.events.push(AllocEvent::Dealloc { ptr, size, charged });
+        }
+    }
+    pub(crate) fn on_fail(&mut self, size: usize, charged: usize) {
+        self.alloc_index += 1;
+        if self.record_events {
+            self.events.push(AllocEvent::Fail { size, charged });
+        }
+    }
+}
+
+/// Access to the allocator hooks of a runtime.
+///
+/// # Safety
+/// the interpreter must not be running on another thread (it never is: it is single threaded)
+pub fn alloc_hooks(rt: &crate::vm::runtime::RuntimeData) -> &mut AllocHooks {
+    unsafe { &mut *(*rt.memory).verif.get() }
+}
+
+/// Header written over a swept object when quarantine is on: a `Function` object with this
+/// arity and `Handle::from_u32(POISON_HANDLE_SEED)`.
+pub const POISON_HANDLE_SEED: u32 = 0xDEAD_BEEF;
+pub const POISON_ARITY: u32 = 0xDEAD;
+
+/// true if the object is a quarantined (swept) object
+pub fn is_poisoned(obj: &crate::vm::runtime::cao_lang_object::CaoLangObject) -> bool {
+    match obj.as_function() {
+        Some(f) => f.arity == POISON_ARITY && f.handle == crate::prelude::Handle::from_u32(POISON_HANDLE_SEED),
+        None => false,
+    }
+}
